@@ -114,7 +114,20 @@ def directed_registry_cases(rng, n):
             for x in [q] + q.children:
                 if ASTNode.get_any(x.id) is not x:
                     fail = "detaching an already detached tree evicted a live twin tree"
-        yield Case("directed", None, None, True, f"shared leaf / MBoth / double detach with v={v}", oracle_fail=fail,
+        # (d) a live child in a field typed as a union of unrelated classes (non-first member) below an unregistered
+        #     parent: deserializing the parent's payload re-uses the child and never evicts it
+        if fail is None:
+            kid = zoo.Bin(zoo.Leaf(v=50 + v), zoo.Leaf(v=60 + v))
+            par = zoo.UnionKid(kid)
+            d = par.as_dict()
+            par.detach_self()
+            back = zoo.UnionKid.as_obj(d)
+            if back.c is not kid:
+                fail = "a still registered child was not re-used by deserialization (union-typed field)"
+            elif ASTNode.get_any(kid.id) is not kid:
+                fail = "deserialization evicted a live, registered child from the registry"
+            del back, par, kid
+        yield Case("directed", None, None, True, f"shared leaf / MBoth / double detach / union-typed child with v={v}", oracle_fail=fail,
                    sig="registry|directed|" + (fail or "")[:40])
     gc.collect()
     NODE_REGISTRY.clear()
